@@ -289,6 +289,50 @@ pub enum HashMode {
     Collide1,
     /// Keys hash to one of two values (by parity).
     Collide2,
+    /// Adversarial for the popularity sketch: keys 0..760 get hash values whose sketch
+    /// counters (table of 256 words, i.e. sketch capacities 129..256) are pairwise disjoint,
+    /// so that after one lookup each nearly every touched counter holds an odd value; all
+    /// other keys hash as under `Fixed`. (The aging step subtracts a quarter of the number of
+    /// odd counters from half of the sample count.)
+    SketchSpread,
+}
+
+/// Number of keys with crafted hash values under `HashMode::SketchSpread`.
+pub const SPREAD_KEYS: u16 = 760;
+
+/// The crafted hash values: a greedy scan of the integers above 1000 for values whose four
+/// sketch counters (same index function and seeds as the library's `FrequencySketch`,
+/// 256-word table) collide with none of the values taken before.
+fn spread_table() -> &'static Vec<u64> {
+    static T: std::sync::OnceLock<Vec<u64>> = std::sync::OnceLock::new();
+    T.get_or_init(|| {
+        const SEED: [u64; 4] = [
+            0xc3a5_c85c_97cb_3127,
+            0xb492_b66f_be98_f273,
+            0x9ae1_6a3b_2f90_404f,
+            0xcbf2_9ce4_8422_2325,
+        ];
+        let mask = 255u64;
+        let mut used = std::collections::BTreeSet::new();
+        let mut out = Vec::new();
+        let mut h = 1000u64;
+        while out.len() < SPREAD_KEYS as usize {
+            h += 1;
+            let start = (h & 3) << 2;
+            let mut pos = [(0u64, 0u64); 4];
+            for (i, seed) in SEED.iter().enumerate() {
+                let mut x = h.wrapping_add(*seed).wrapping_mul(*seed);
+                x = x.wrapping_add(x >> 32);
+                pos[i] = (x & mask, start + i as u64);
+            }
+            if pos.iter().any(|p| used.contains(p)) {
+                continue;
+            }
+            used.extend(pos);
+            out.push(h);
+        }
+        out
+    })
 }
 
 #[derive(Clone)]
@@ -299,6 +343,8 @@ pub struct SimBuildHasher {
 pub struct SimHasher {
     mode: HashMode,
     acc: u64,
+    /// the key, when it was fed through `write_u16` (what `K::hash` does)
+    key: Option<u16>,
 }
 
 impl BuildHasher for SimBuildHasher {
@@ -307,11 +353,16 @@ impl BuildHasher for SimBuildHasher {
         SimHasher {
             mode: self.mode,
             acc: 0,
+            key: None,
         }
     }
 }
 
 impl Hasher for SimHasher {
+    fn write_u16(&mut self, v: u16) {
+        self.key = Some(v);
+        self.write(&v.to_ne_bytes());
+    }
     fn write(&mut self, bytes: &[u8]) {
         for b in bytes {
             self.acc = self.acc.wrapping_mul(257).wrapping_add(*b as u64 + 1);
@@ -322,6 +373,15 @@ impl Hasher for SimHasher {
             HashMode::Fixed => {
                 let mut x = self.acc ^ 0x5851_F42D_4C95_7F2D;
                 crate::prng::splitmix64(&mut x)
+            }
+            HashMode::SketchSpread => {
+                // `acc` encodes the two key bytes (see `write`): recover the key
+                let mut x = self.acc ^ 0x5851_F42D_4C95_7F2D;
+                let fixed = crate::prng::splitmix64(&mut x);
+                match self.key {
+                    Some(k) if k < SPREAD_KEYS => spread_table()[k as usize],
+                    _ => fixed,
+                }
             }
             HashMode::Collide1 => 0x1234_5678_9ABC_DEF0,
             HashMode::Collide2 => {
